@@ -1115,7 +1115,7 @@ class RouteCall(Call):
 
     def __init__(self, ctx, tag="", w=2, h=2, torus=False, K=1, radius=20,
                  nsinks=2, src=None, two_nets=False, kinds=None,
-                 sink_chips=None, no_alloc=False):
+                 sink_chips=None, no_alloc=False, alloc_default=False):
         from harness.c03 import SymLinkSet, off_edge_links, make_wrap_stub
         from rig.place_and_route.machine import Machine, Cores
         from rig.place_and_route.constraints import RouteEndpointConstraint
@@ -1161,6 +1161,10 @@ class RouteCall(Call):
         self.args = collections.OrderedDict(
             vertices_resources=dict((v, {}) for v in placements), nets=nets,
             machine=machine, constraints=constraints, placements=placements)
+        if alloc_default:
+            # the caller keeps its allocations in a mapping that creates
+            # entries when read with a subscript
+            allocations = collections.defaultdict(dict, allocations)
         if not no_alloc:
             self.args["allocations"] = allocations
 
@@ -2048,6 +2052,8 @@ def units(tier, seed):
           nsinks=1)
     route("3x3 mesh K=1 r=20 one sink", w=3, h=3, torus=False, K=1,
           radius=20, nsinks=1)
+    route("2x2 mesh K=0 r=20, allocations in a defaultdict", w=2, h=2,
+          torus=False, K=0, radius=20, alloc_default=True)
     route("2x1 mesh K=1 r=0 (disconnected), allocations omitted", w=2, h=1,
           torus=False, K=1, radius=0, nsinks=1, no_alloc=True, wit=RR)
     if thorough:
